@@ -75,7 +75,7 @@ var incPool = map[string][]float64{
 // templates are the initial documents; the same template on two nodes is the same document.
 var templates = []string{
 	`{"s":"t0","i":1,"pn":3,"pc":1,"pf":0.5}`,
-	`{"s":"t1","f":0.25,"b":true,"t":"2020-01-02T03:04:05Z","bl":"00ff","j":{"k":1},"a":[1,2],"pn":0}`,
+	`{"f":0.25,"b":true,"t":"2020-01-02T03:04:05Z","bl":"00ff","j":{"k":1},"a":[1,2],"pn":0}`,
 	`{"s":"t2","i":null,"j":null}`,
 	`{"s":"t3","pc":5,"pf":-0.25,"i":7}`,
 }
